@@ -211,7 +211,6 @@ End Sane.
 
 (* ---- what gen_tree needs from the chains, and what it guarantees about the tree ------------------------------ *)
 Record chains_ok (npc : N) (chains : list chain) : Prop := {
-  ck_temps : temps_positional chains;
   ck_keys : keys_faithful chains;
   ck_lits : forall rc v, In rc chains -> In (NLit v) (ch_name rc) -> v <> [];
   ck_fns : forall rc c f args, In rc chains -> In c (ch_cons rc) -> In (NOFn f args) (nc_opts c) -> f <> [];
@@ -291,7 +290,7 @@ Proof.
     apply p_group_in in Hpm0. destruct Hpm0 as [Hpm0 _]. apply p_moves_in in Hpm0.
     destruct Hpm0 as (rc0 & t0 & Hr0 & Hpa0 & ->). apply going_on_in in Hr0. destruct Hr0 as [Hr0 _]. cbn [fst snd].
     rewrite pm_tag, pm_cons. split; [|split].
-    - destruct (zmem t0 prev); [reflexivity | eapply cons_for_ok; eauto].
+    - destruct ((0 <=? t0)%Z && zmem t0 prev); [reflexivity | eapply cons_for_ok; eauto].
     - intros Hpos. eapply (ck_tags _ _ Hok); [apply Hsub; exact Hr0 | eapply pat_at_in; eauto | exact Hpos].
     - eapply IH; eauto. intros rc1 H1. apply in_map_iff in H1. destruct H1 as (pm & <- & Hpm). rewrite <- Egrp in Hpm.
       apply p_group_in in Hpm. destruct Hpm as [Hpm _]. apply p_moves_in in Hpm. destruct Hpm as (rc2 & t2 & Hr2 & _ & ->).
@@ -407,7 +406,6 @@ Section Compiled.
     constructor.
     - intros rc i t _ Hi. lia.
     - intros rc t _ [].
-    - intros rc t j _ [].
   Qed.
 
   (* C11 at the level of chains: a rule name is reported for a name iff one of that rule's chains is satisfied *)
@@ -416,7 +414,7 @@ Section Compiled.
     (exists rc, In rc chains /\ ch_id rc = r /\ chain_sem_from ufn 0 rc name c c').
   Proof.
     intros Hc.
-    pose proof (gen_tree_sem ufn chains (ck_temps _ _ Hok) (ck_keys _ _ Hok) _ _ _ _ _ Htree (fun rc H => H) inv0 name c c') as [Hs Hcp].
+    pose proof (gen_tree_sem ufn chains (ck_keys _ _ Hok) _ _ _ _ _ Htree (fun rc H => H) inv0 name c c') as [Hs Hcp].
     split.
     - intros (n & nd & Hm & Hg & Hr). destruct (compiled_match_fwd _ _ _ _ Hc Hm) as (t' & k & p' & -> & Htp & Hrz & _).
       destruct (realized_node _ _ _ Hrz) as (g & nd' & sc & _ & Hg' & Hru & _ & Hnr & _).
@@ -436,7 +434,7 @@ Section Compiled.
                    chain_sem_from ufn 0 rk k cx cx').
   Proof.
     assert (Hc0 : ctx_named npc []) by (intros t _; reflexivity).
-    pose proof (fun name c c' => gen_tree_sem ufn chains (ck_temps _ _ Hok) (ck_keys _ _ Hok) _ _ _ _ _ Htree (fun rc H => H) inv0 name c c') as Hsem.
+    pose proof (fun name c c' => gen_tree_sem ufn chains (ck_keys _ _ Hok) _ _ _ _ _ Htree (fun rc H => H) inv0 name c c') as Hsem.
     split.
     - intros (pn & pnode & kn & Hmp & Hgp & Hmk & Hin).
       destruct (compiled_match_fwd _ _ _ _ Hc0 Hmp) as (tp & ip & pp & -> & Htpp & Hrzp & Hcx).
